@@ -195,6 +195,19 @@ pub struct World {
     pub last_dump: Dump,
     /// compute the slot owner of every signature (C16 only; costs one signing per party)
     pub want_owner: bool,
+    /// removes the world's directories when the world is dropped (declared last: the runtime goes first)
+    _cleanup: DirGuard,
+}
+
+pub struct DirGuard(Vec<PathBuf>);
+impl Drop for DirGuard {
+    fn drop(&mut self) {
+        if std::env::var("HAGG_KEEP").is_err() {
+            for d in &self.0 {
+                let _ = std::fs::remove_dir_all(d);
+            }
+        }
+    }
 }
 
 /// names of the crash points of hook H3, numbered as in `AggProto.crashPointOfNat`
@@ -232,6 +245,8 @@ pub fn label_short(l: &str) -> &'static str {
 
 impl World {
     pub async fn new(name: &str, n_signers: usize, params: ProtocolParameters, discs: &[SignedEntityTypeDiscriminants]) -> World {
+        // one directory per (process, world): concurrent runs of a check never share a database
+        let name = &format!("{}_p{}", name, std::process::id());
         let dir = test_extensions::utilities::get_test_dir(name);
         let snap = std::env::temp_dir().join("mithril_test").join("hagg_snap").join(name);
         let _ = std::fs::remove_dir_all(&snap);
@@ -240,7 +255,7 @@ impl World {
             protocol_parameters: Some(params.clone()),
             signed_entity_types: Some(discs.iter().map(|d| d.to_string()).collect::<Vec<_>>().join(",")),
             data_stores_directory: dir.clone(),
-            ..ServeCommandConfiguration::new_sample(snap)
+            ..ServeCommandConfiguration::new_sample(snap.clone())
         };
         let start = TimePoint {
             epoch: Epoch(1),
@@ -284,6 +299,7 @@ impl World {
             last_cert_count: 1,
             last_dump: Dump::default(),
             want_owner: false,
+            _cleanup: DirGuard(vec![dir.clone(), snap.clone()]),
         };
         // `init_state_from_fixture_for_genesis` records every fixture signer under the keys 0 and 1
         w.regs.insert(0, (0..n_signers).collect());
